@@ -177,6 +177,27 @@ claim("C20",
       "floating-point rounding of numpy sums; deep copy and LFP handling; 1-D slab/cylinder collections; getVolume, getMass, "
       "getVolumeFractions are inputs.")
 
+
+claim("C04",
+      "Lean theorems over an executable transcription of the layout logic: compose inverts flatten for all trees and all row lists "
+      "(load-twice, save-of-load), indexInData pairs every object with its own row of its type's datasets, packing/unpacking of all "
+      "four location kinds and all multi-index lengths, grid-table lookup. Tied on every run to the real Layout arrays, the file's "
+      "layout datasets, _unpackLocations, computeAncestors and generated composite trees; the whole property is then checked as a "
+      "canonical-dump oracle on five shipped inputs (hex third/full, Cartesian, RZ, axial-expansion fixture) under seeded edits "
+      "through the real writeToDB/load, including load-twice and save-of-load.",
+      "theorems cover only layout/locator/index/grid-table logic; child sort key, reduce(), blueprint re-construction of components "
+      "and material lookup are checked only by the whole-stack oracle; shipped inputs replace generated blueprints; arbitrary values "
+      "go only to free parameters (derived list explicit in c04.py); listed findings are excluded.")
+claim("C05",
+      "Lean theorems over an executable transcription of _writeParams / JaggedArray / packSpecialData / NONE_MAP / FlagSerializer: any "
+      "one-dtype list that is accepted reads back equal up to the documented normalisations through every strategy; writer and reader "
+      "None-sentinels agree for every dtype of the table REGENERATED from layout.py on every run; flag sets keep their meaning under "
+      "any reordering or extension of the field list. Tied by seeded runs through the real _writeParams -> HDF5 -> _readParams and "
+      "_packImpl -> _unpackImpl, an exhaustive 819-case alphabet and the full numpy promotion table.",
+      "numpy promotion, 'inhomogeneous shape raises', h5py's refusal of unicode arrays and HDF5 storage are parameters checked by the "
+      "correspondence; nesting modelled to depth 2; mixed-dtype lists judged by the oracle only; explicit guards exclude listed findings.",
+      "Lean 4 theorems + kernel-checked obligations over constants regenerated from /repo + correspondence check")
+
 NOT_YET = {}
 
 ALL = [f"C{n:02d}" for n in range(1, 21)]
